@@ -6,11 +6,13 @@ Reference code shared by the C09 and C10 checks (nothing here imports verde or p
 * numpy / ``math.fsum`` reference reductions over the members of a block;
 * small helpers to read the arguments of a ``filter`` call.
 """
+import copy
 import math
+import types
 
 import numpy as np
 
-from .. import ref
+from .. import core, ref
 
 EPS = ref.EPS
 TINY = float(np.finfo("float64").tiny)
@@ -47,6 +49,48 @@ def container_kind(obj):
             return "ndarray_strided"
         return "ndarray_%dd" % obj.ndim
     return name
+
+
+def operand_eps(*arrays):
+    """
+    Machine epsilon the tolerance of a value is built on: float64, unless an operand the code was handed is
+    itself a narrower float (float32 data / weights / coordinates), then that operand's epsilon.
+    """
+    eps = EPS
+    for arr in arrays:
+        if arr is None:
+            continue
+        dtype = np.asarray(arr).dtype
+        if dtype.kind == "f" and dtype.itemsize < 8:
+            eps = max(eps, float(np.finfo(dtype).eps))
+    return eps
+
+
+def dtype_name(arr):
+    return str(np.asarray(arr).dtype)
+
+
+def snapshot_params(est):
+    """Deep copy of the constructor parameters of an estimator (taken before the call)."""
+    return copy.deepcopy(est.get_params(deep=False))
+
+
+def params_changed(before, est):
+    """Names of constructor parameters whose value differs from the snapshot (callables by identity)."""
+    now = est.get_params(deep=False)
+    changed = []
+    for key in sorted(set(before) | set(now)):
+        if key not in before or key not in now:
+            changed.append(key)
+            continue
+        a, b = before[key], now[key]
+        if callable(a) or callable(b):
+            same = a is b
+        else:
+            same = type(a) is type(b) and core.digest(a) == core.digest(b)
+        if not same:
+            changed.append(key)
+    return changed
 
 
 # --------------------------------------------------------------------------
@@ -202,8 +246,8 @@ def weighted_median_is_stable(v, w):
     return bool(np.all(np.abs(cum - half) > 64 * EPS * v.size * cum[-1]))
 
 
-def value_tolerance(values, n_members):
-    return 64 * EPS * n_members * float(np.max(np.abs(values))) + TINY
+def value_tolerance(values, n_members, eps=EPS):
+    return 64 * eps * n_members * float(np.max(np.abs(values))) + TINY
 
 
 def reference_for(reduction):
@@ -233,10 +277,13 @@ class Call:
     ``block_split`` event, the reference block geometry and the members of every occupied block.
     """
 
-    def __init__(self, ev):
+    def __init__(self, ev, params=None):
         a = ev.args
         est = a["self"]
         self.est = est
+        # the configuration the call was handed: constructor parameters as they were *before* the call
+        self.cfg = types.SimpleNamespace(**(params if params is not None else est.get_params(deep=False)))
+        cfg = self.cfg
         self.raw_coordinates = a["coordinates"]
         self.raw_data = a["data"]
         self.raw_weights = a["weights"]
@@ -246,13 +293,18 @@ class Call:
         self.weights = None if (wts is None or any(w is None for w in wts)) else [flat(w) for w in wts]
         self.ncomp = len(self.data)
         self.npoints = self.coords[0].size
+        raw_data = as_tuple(self.raw_data)
+        self.data_dtypes = [dtype_name(d) for d in raw_data]
+        self.weight_dtypes = None if self.weights is None else [dtype_name(w) for w in wts]
+        self.data_eps = [operand_eps(raw_data[c], None if self.weights is None else wts[c]) for c in range(self.ncomp)]
+        self.coord_eps = [operand_eps(c) for c in self.raw_coordinates]
         self.problem = None  # structural problem with the nested labelling
         self.labels = None
         self.centres = None
         self.label_source = None
         self.n_sure = self.n_either = 0
         east, north = self.coords[0], self.coords[1]
-        self.geometry = Geometry(east, north, est.spacing, est.shape, est.adjust, est.region)
+        self.geometry = Geometry(east, north, cfg.spacing, cfg.shape, cfg.adjust, cfg.region)
         splits = [e for e in ev.descendants("block_split") if e.exc is None]
         geo = self.geometry
         if splits:
@@ -283,7 +335,7 @@ class Call:
 
     # -- descriptions ----------------------------------------------------
     def classes(self):
-        est = self.est
+        est = self.cfg
         sizes = [m.size for _, m in self.groups]
         out = [
             "components:%d" % self.ncomp,
@@ -297,7 +349,17 @@ class Call:
             "coords_container:" + container_kind(self.raw_coordinates[0]),
             "data_container:" + container_kind(as_tuple(self.raw_data)[0]),
         ]
+        for name in set(self.data_dtypes):
+            out.append("data_dtype_present:" + name)
+        if len(set(self.data_dtypes)) > 1:
+            out.append("mixed_data_dtypes")
+            kinds = ["integer" if np.dtype(d).kind in "iu" else d for d in self.data_dtypes]
+            out.append("mixed_data_dtypes:%s_then_%s" % (kinds[0], next(k for k in kinds[1:] if k != kinds[0])))
+        if any(e > EPS for e in self.data_eps):
+            out.append("tolerance_from_float32_operand")
         if self.weights is not None:
+            for name in set(self.weight_dtypes):
+                out.append("weights_dtype_present:" + name)
             out.append("weights_container:" + container_kind(as_tuple(self.raw_weights)[0]))
             if np.shape(as_tuple(self.raw_weights)[0]) != np.shape(as_tuple(self.raw_data)[0]):
                 out.append("weights_shape_differs_from_data")
@@ -336,13 +398,14 @@ class Call:
         return False
 
     def witness(self, **extra):
-        est = self.est
+        est = self.cfg
         out = {
             "config": {"spacing": est.spacing, "shape": est.shape, "region": est.region, "adjust": est.adjust,
                        "center_coordinates": est.center_coordinates, "drop_coords": est.drop_coords,
-                       "reduction": getattr(est.reduction, "__name__", repr(est.reduction)),
+                       "reduction": getattr(getattr(est, "reduction", None), "__name__", repr(getattr(est, "reduction", None))),
                        "uncertainty": getattr(est, "uncertainty", None)},
             "coordinates": list(self.raw_coordinates), "data": self.raw_data, "weights": self.raw_weights,
+            "data_dtypes": self.data_dtypes, "weight_dtypes": self.weight_dtypes,
             "labels": self.labels, "label_source": self.label_source,
             "reference_blocks": {"n_north": self.geometry.north.n, "n_east": self.geometry.east.n,
                                  "region_used": [self.geometry.east.lo, self.geometry.east.hi, self.geometry.north.lo, self.geometry.north.hi]},
@@ -357,12 +420,12 @@ def check_layout(call, out_coords, out_values, what):
     value is an array (one component) or a tuple of arrays. Returns (problem or None, list of per-name component lists).
     """
     n_occ = len(call.groups)
-    want_coords = 2 if call.est.drop_coords else len(call.coords)
+    want_coords = 2 if call.cfg.drop_coords else len(call.coords)
     if not isinstance(out_coords, tuple):
         return "%s: coordinates are a %s, not a tuple" % (what, type(out_coords).__name__), None
     if len(out_coords) != want_coords:
         return "%s: %d coordinate arrays returned, %d expected (drop_coords=%s, %d given)" % (
-            what, len(out_coords), want_coords, call.est.drop_coords, len(call.coords)), None
+            what, len(out_coords), want_coords, call.cfg.drop_coords, len(call.coords)), None
     for k, c in enumerate(out_coords):
         if np.shape(c) != (n_occ,):
             return "%s: coordinate %d has shape %s but %d blocks contain data (of %d blocks)" % (
@@ -401,7 +464,7 @@ def check_block_values(call, observed, impl, weighted, stable=None):
                 skipped += 1
                 continue
             want = impl(v, w)
-            tol = value_tolerance(v, members.size)
+            tol = value_tolerance(v, members.size, call.data_eps[c])
             got = float(observed[c][k])
             err = abs(got - want)
             judged += 1
@@ -418,7 +481,7 @@ def check_block_values(call, observed, impl, weighted, stable=None):
 def check_block_coordinates(call, out_coords, impl):
     """Centre of that very block, or the (unweighted) reduction of the members' coordinates."""
     failures, judged, worst = [], 0, 0.0
-    centre = bool(call.est.center_coordinates)
+    centre = bool(call.cfg.center_coordinates)
     geo = call.geometry
     tol_centre = geo.centre_tolerance()
     for i, out in enumerate(out_coords):
@@ -433,7 +496,7 @@ def check_block_coordinates(call, out_coords, impl):
                 kind = "centre of block %d" % label
             else:
                 v = source[members]
-                want, tol = impl(v, None), value_tolerance(v, members.size)
+                want, tol = impl(v, None), value_tolerance(v, members.size, call.coord_eps[i])
                 kind = "reduction of the %d member coordinates" % members.size
             got = float(out[k])
             err = abs(got - want)
@@ -556,3 +619,65 @@ def wrap_all(arrays, kind, rng):
     if kind == "mixed":
         return [wrap(a, str(rng.choice(["1d", "strided", "readonly", "series", "series_str"])), rng) for a in arrays]
     return [wrap(a, kind, rng) for a in arrays]
+
+
+# --------------------------------------------------------------------------
+# data dtypes and call histories (shared by C09 and C10)
+# --------------------------------------------------------------------------
+INT_TYPES = ["int16", "int32", "int64"]
+
+
+def choose_dtypes(rng, ncomp):
+    """
+    dtypes of the data components of one call: all float64 | one narrow type for all | mixed in both orders
+    (integer first then float64, float64 first then integer, float32 with float64).
+    """
+    pick = rng.random()
+    if pick < 0.5:
+        return ["float64"] * ncomp
+    ints = str(rng.choice(INT_TYPES))
+    if ncomp >= 2 and pick < 0.85:
+        base = {0: [ints, "float64"], 1: ["float64", ints], 2: ["float32", "float64"], 3: ["float64", "float32"],
+                4: [ints, "float32"]}[int(rng.integers(0, 5))]
+        return base + [str(rng.choice(["float64", ints, "float32"])) for _ in range(ncomp - 2)]
+    return [str(rng.choice(INT_TYPES + ["float32"]))] * ncomp
+
+
+def retype(rng, field, dtype):
+    """The field in another dtype: float32 rounds the values, integers rescale them to a few hundred .. 1e7 counts."""
+    if dtype == "float64":
+        return field
+    if dtype == "float32":
+        return field.astype("float32")
+    top = {"int16": 3.0e3, "int32": 1.0e6, "int64": 1.0e7}[dtype] * rng.uniform(0.03, 1.0)
+    scale = float(np.max(np.abs(field))) or 1.0
+    return np.round(field / scale * top).astype(dtype)
+
+
+def integer_weights(rng, size):
+    return rng.integers(1, 60, size).astype(str(rng.choice(["int32", "int64"])))
+
+
+def other_cloud(rng, east, north):
+    """A cloud of another size with another bounding box (stretched, shifted, partly overlapping)."""
+    n = int(rng.integers(max(2, east.size // 3), east.size * 2 + 3))
+    e2, n2 = make_points(rng, n=n)
+    width = (east.max() - east.min()) or 1.0
+    height = (north.max() - north.min()) or 1.0
+    e2 = (e2 - e2.min()) / ((e2.max() - e2.min()) or 1.0)
+    n2 = (n2 - n2.min()) / ((n2.max() - n2.min()) or 1.0)
+    e2 = east.min() + width * (rng.uniform(-0.6, 0.6) + e2 * rng.uniform(0.4, 1.9))
+    n2 = north.min() + height * (rng.uniform(-0.6, 0.6) + n2 * rng.uniform(0.4, 1.9))
+    return np.ascontiguousarray(e2), np.ascontiguousarray(n2)
+
+
+def history_blocks(rng, east, north):
+    """Constructor arguments of an instance that is going to be reused: region=None (60 %) or a fixed region."""
+    kwargs = make_blocks(rng, east, north)
+    if rng.random() < 0.6:
+        kwargs.pop("region", None)
+        width, height = (east.max() - east.min()) or 1.0, (north.max() - north.min()) or 1.0
+        if "spacing" in kwargs:
+            kwargs["spacing"] = (float(height / rng.uniform(1.2, 5.5)), float(width / rng.uniform(1.2, 5.5)))
+    kwargs["center_coordinates"] = bool(rng.random() < 0.5)
+    return kwargs
